@@ -156,10 +156,13 @@ func echoDesc(tid int) *grpc.ServiceDesc {
 		Methods: []grpc.MethodDesc{{MethodName: "Who", Handler: h}}}
 }
 
+// w2NoAffinity: the next handler is created WITHOUT an AffinityKey function (every reverse tunnel then has the nil key)
+var w2NoAffinity bool
+
 func startW2(t *testing.T, ops *opsWriter, noReverseFC bool) *w2 {
 	w := &w2{t: t, ops: ops, tunnels: map[int]*revTunnel{}}
 	w.lis = bufconn.Listen(1 << 20)
-	w.handler = grpctunnel.NewTunnelServiceHandler(grpctunnel.TunnelServiceHandlerOptions{
+	hopts := grpctunnel.TunnelServiceHandlerOptions{
 		OnReverseTunnelOpen: func(ch grpctunnel.TunnelChannel) {
 			w.mu.Lock()
 			w.cb = append(w.cb, fmt.Sprintf("open:%d", tidOf(ch)))
@@ -184,7 +187,11 @@ func startW2(t *testing.T, ops *opsWriter, noReverseFC bool) *w2 {
 			return nil
 		},
 		DisableFlowControl: noReverseFC,
-	})
+	}
+	if w2NoAffinity {
+		hopts.AffinityKey = nil
+	}
+	w.handler = grpctunnel.NewTunnelServiceHandler(hopts)
 	w.gs = grpc.NewServer()
 	tunnelpb.RegisterTunnelServiceServer(w.gs, w.handler.Service())
 	go func() { _ = w.gs.Serve(w.lis) }()
@@ -304,12 +311,23 @@ func TestW2Registry(t *testing.T) {
 	n := envInt("VERIF_N", 60)
 	for i := 0; i < n; i++ {
 		synctest.Test(t, func(t *testing.T) {
+			// every fifth handler has no AffinityKey function: whatever the tunnels say about themselves they all have the
+			// nil key, so KeyAsChannel(k) for any other k matches none of them (the op lines carry the EFFECTIVE key)
+			noAff := i%5 == 4
+			w2NoAffinity = noAff
 			w := startW2(t, ops, false)
+			w2NoAffinity = false
 			defer w.stop()
 			ops.add("r.init", w.obsReg(""))
 			next := 1
 			nextW := 0
 			keys := []string{"-", "a", "b", "a"}
+			eff := func(k string) string {
+				if noAff {
+					return "-"
+				}
+				return k
+			}
 			for step := 0; step < 25+rng.Intn(30); step++ {
 				var live []*revTunnel
 				for _, tn := range w.tunnels {
@@ -325,7 +343,7 @@ func TestW2Registry(t *testing.T) {
 					id := next
 					next++
 					w.open(id, key, nil)
-					keyArg := key
+					keyArg := eff(key)
 					ops.add(fmt.Sprintf("r.open t=%d key=%s", id, keyArg), w.obsReg(""))
 				case k < 32 && len(live) > 0:
 					tn := live[rng.Intn(len(live))]
@@ -408,7 +426,7 @@ func TestW2Registry(t *testing.T) {
 						}
 					}
 					cancel()
-					ops.add(fmt.Sprintf("r.doa t=%d key=%s", id, key), w.obsReg(""))
+					ops.add(fmt.Sprintf("r.doa t=%d key=%s", id, eff(key)), w.obsReg(""))
 				case k < 96:
 					// a tunnel whose channel is closed by the network server BETWEEN the two registration steps
 					// (after the global pool, before the per-key pool): like a dead-on-arrival tunnel it must leave nothing behind
@@ -429,7 +447,7 @@ func TestW2Registry(t *testing.T) {
 					synctest.Wait()
 					grpctunnel.VerifSetHook(nil)
 					tn.cancel()
-					ops.add(fmt.Sprintf("r.doa t=%d key=%s", id, key), w.obsReg(""))
+					ops.add(fmt.Sprintf("r.doa t=%d key=%s", id, eff(key)), w.obsReg(""))
 				case k < 97 && len(live) == 1:
 					// the last tunnel goes away and a caller starts waiting while it is being torn down
 					tn := live[0]
